@@ -74,6 +74,8 @@ Definition run_case (c : case) : result :=
   | 11 => let! x := val c 0 in ret_v (convert k x)
   | 12 => let! x := val c 0 in Ok [IV x]
   | 13 => ret_v (if arg c 0 =? 0 then k_zeros k (arg c 1) else k_ones k (arg c 1))
+  (* Clone::clone_from(&mut dst, &src) with the derived Clone: `*dst = src.clone()`, the storage of src as it is *)
+  | 14 => let! _ := val c 0 in let! y := val c 1 in Ok [IV y]
   (* ---- observers *)
   | 20 => let! x := val c 0 in Ok [IN (x_capacity x)]
   | 21 => let! x := val c 0 in Ok [IN (xlen x)]
